@@ -24,6 +24,7 @@ RULE = (
     "decides each operation from its actual start time: write completes iff an ack with the tester's pair echoing request[:5] "
     "arrives within the ack timeout; reads return payloads of ECU->tester data frames in arrival order, nothing lost (drain reads at "
     "the end); every alive check is answered at the instant it arrived with 00 00 00 02 00 12 <src as 2 bytes>; an error control "
+    "Some cases let drain() suspend (slow gateway) and place the acknowledgement just inside / outside the acknowledgement time counted from the hand-over. "
     "word fails the pending/next operation with a ConnectionError and closes the connection. Non-trivial: the stream contains a "
     "frame that is not the awaited one, or a split inside a frame. Distinct by case."
 )
